@@ -54,8 +54,9 @@ class Packet:
 
 
 class PSpec:
-    def __init__(self, name, packets, options=None, meta=None, family='general', note=''):
+    def __init__(self, name, packets, options=None, meta=None, family='general', note='', may_reject=False):
         self.name = name
+        self.may_reject = may_reject      # the compiler may answer with a diagnostic instead of code (not a documented construct)
         self.packets = packets
         self.options = dict(options or {})
         self.meta = list(meta or [])    # [(entry name, ('basic',t)|('fixed',n,z)|('dyn',)|('ref',other), doc)]
@@ -377,8 +378,8 @@ def family(tier):
     progs = []
     thorough = tier == 'thorough'
 
-    def add(name, packets, options, meta=None, fam='general', note=''):
-        progs.append(PSpec(name, packets, options, meta, fam, note))
+    def add(name, packets, options, meta=None, fam='general', note='', may_reject=False):
+        progs.append(PSpec(name, packets, options, meta, fam, note, may_reject))
 
     # ---- single-kind programs: one kind per packet, options the kind depends on ----
     # scalars: byte order only
@@ -465,7 +466,7 @@ def family(tier):
         note='fixed-string sizes written with leading zeros are decimal')
     add('opt_alias_values', [Packet('Root', [F('basic', 'Nums', typ='u32', repeat=True), F('dyn', 'Name', spelling='string'), F('dyn', 'Names', spelling='string', repeat=True)], root=True)],
         opts(ArrayPrefixLenType='uint8', StringPrefixLenType='uint16'),
-        note='long spellings as option values: either a diagnostic, or code that means u8/u16')
+        note='long spellings as option values: either a diagnostic, or code that means u8/u16', may_reject=True)
     # aliases (entry typed by another entry), alias of alias, of every entry kind
     meta2 = meta + [('ZAlias', ('ref', 'ZName'), 'za'), ('ZAlias2', ('ref', 'ZAlias'), 'za2'), ('SymAlias', ('ref', 'Symbol'), 'sa'),
                     ('MemoAlias', ('ref', 'Memo'), 'ma'), ('Px3', ('ref', 'Px2'), 'px3')]
